@@ -324,6 +324,19 @@ def r5_sources(rep, ctx):
             or any(_filled_from_map(init, x.id) for x in ast.walk(st.value) if isinstance(x, ast.Name))
         rep.check(ok and fed, "C20.R5", "Quantity.__init__:derived:%s" % attr, "derived %s is %s over the composing map" % (attr, builder),
                   "derived %s is %s" % (attr, show(t, 100)), node=st, fn=init)
+    # joined exponents: one accumulator keyed by unit over *all* entries of the composing map
+    je = m.method("Quantity", "GetComposingUnitsJoiningExponents")
+    loops_ = [lp for lp in own_statements(je.node) if isinstance(lp, ast.For) and any(isinstance(x, ast.Attribute) and x.attr == "_category_to_unit_and_exps" for x in ast.walk(lp.iter))]
+    if len(loops_) != 1:
+        raise AnalysisError("Quantity.GetComposingUnitsJoiningExponents: the accumulation loop over the composing map was not found (another joining algorithm: the checker cannot tell whether non-adjacent repeats of a unit are joined)")
+    lp_ = loops_[0]
+    names_ = [x.id for x in ast.walk(lp_.target) if isinstance(x, ast.Name)]
+    unit_v, exp_v = names_[-2], names_[-1]
+    acc_ok = False
+    for st in own_statements(lp_):
+        if isinstance(st, ast.Assign) and isinstance(st.targets[0], ast.Subscript) and ast.unparse(st.targets[0].slice) == unit_v and any(isinstance(x, ast.Name) and x.id == exp_v for x in ast.walk(st.value)):
+            acc_ok = True
+    rep.check(acc_ok, "C20.R5", "joined-exponents:accumulate-by-unit", "exponents are accumulated in a mapping keyed by the unit over all entries", "the joined exponents are not accumulated per unit", fn=je)
     # the unit builder iterates the joined composing units of this quantity
     ub = m.method("Quantity", "_CreateUnitsWithJoinedExponentsString")
     loops = [lp for lp in own_statements(ub.node) if isinstance(lp, ast.For)]
